@@ -343,3 +343,18 @@ add("fs_source_iter_dfcc", ["C07"], ["tu/fileset_dfcc.c"], "h_fileset_source_ite
 add("fs_iter_free_dfcc", ["C07", "C18"], ["tu/fileset_dfcc.c"], "h_fileset_iter_free_dfcc", mode="dfcc", enforce="fileset_iter_free/fileset_iter_free__spec",
     replace=["mtbl_fileset_reload/mtbl_fileset_reload__spec", "mtbl_iter_destroy/mtbl_iter_destroy__cap", "free/free__cap"],
     unwind=24, timeout=900, slice=1, strength="U", functions=["fileset_iter_free"], assumptions=FS_DFCC2_ASSUME)
+# ---------------------------------------------------------------- the "pump" loops (iterator -> writer) under DFCC loop contracts: any number of entries
+add("src_write_dfcc", ["C04", "C18"], ["tu/source_write_dfcc.c"], "h_source_write_dfcc", mode="dfcc", enforce="mtbl_source_write/mtbl_source_write__spec",
+    replace=["mtbl_source_iter/mtbl_source_iter__cap", "mtbl_iter_next/mtbl_iter_next__cap", "mtbl_writer_add/mtbl_writer_add__cap", "mtbl_iter_destroy/mtbl_iter_destroy__cap"],
+    loops="loops/pump_source.json", unwind=16, timeout=600, slice=1, strength="U", functions=["mtbl_source_write"],
+    assumptions=["iterator and writer are capture contracts: every successful next yields an arbitrary fresh entry; the writer's add contract requires at the call site that it receives exactly that entry, once, before the next is fetched",
+                 "termination is not claimed (no decreases clause: the stream is arbitrary); streams of fewer than 2^62 entries (ghost counters do not wrap)"])
+PUMP_ASSUME = ["iterator and writer are capture contracts: every successful next yields an arbitrary fresh entry; the writer's add contract requires at the call site that it receives exactly that entry, once, before the next is fetched",
+               "termination is not claimed (no decreases clause: the stream is arbitrary); streams of fewer than 2^62 entries (ghost counters do not wrap)"]
+add("so_write_dfcc", ["C06", "C18"], ["tu/sorter_write_dfcc.c"], "h_sorter_write_dfcc", mode="dfcc", enforce="mtbl_sorter_write/mtbl_sorter_write__spec",
+    replace=["mtbl_sorter_iter/mtbl_sorter_iter__cap", "mtbl_iter_next/mtbl_iter_next__cap", "mtbl_writer_add/mtbl_writer_add__cap", "mtbl_iter_destroy/mtbl_iter_destroy__cap"],
+    loops="loops/pump_sorter.json", unwind=16, timeout=600, slice=1, strength="U", functions=["mtbl_sorter_write"], assumptions=PUMP_ASSUME + ["mtbl_sorter_iter replaced by a capture contract (own check: so_iter_dfcc)"])
+add("merge_tool_dfcc", ["C04", "C18"], ["tu/merge_tool_dfcc.c"], "h_merge_tool_dfcc", mode="dfcc", enforce="merge/merge__spec",
+    replace=["mtbl_merger_source/mtbl_merger_source__cap", "mtbl_source_iter/mtbl_source_iter__cap", "mtbl_iter_next/mtbl_iter_next__cap", "mtbl_writer_add/mtbl_writer_add__cap", "mtbl_iter_destroy/mtbl_iter_destroy__cap",
+             "mtbl_merger_destroy/mtbl_merger_destroy__cap", "mtbl_writer_destroy/mtbl_writer_destroy__cap", "print_stats/print_stats__cap"],
+    loops="loops/pump_merge.json", unwind=16, timeout=600, slice=1, strength="U", functions=["merge (src/mtbl_merge.c)"], assumptions=PUMP_ASSUME + ["the statistics output every STATS_INTERVAL entries is replaced by a no-op contract"])
